@@ -208,7 +208,7 @@ _tp = _os.path.join(_os.path.dirname(_os.path.abspath(__file__)), 'kani', 'timin
 TIMINGS = _json.load(open(_tp)) if _os.path.exists(_tp) else {}
 THOROUGH_ONLY = {h for h, t in TIMINGS.items() if (t.get('solver_s') or 0) > QUICK_LIMIT_S} | {
     'k_builder_inforeq_odd_then_entry',
-    'k_vbe_decode_control', 'k_vbe_decode_mode', 'k_vbe_new_control', 'k_vbe_new_mode',
+    'k_vbe_new_control', 'k_vbe_new_mode',
     'k_rsdpv1_signature', 'k_rsdpv2_signature', 'k_rsdpv1_oem_id', 'k_rsdpv2_oem_id',
 }
 
